@@ -202,9 +202,9 @@ def judge(ctx, ast, sp, T, vi, v):
         core.add_violation(res, {'kind': 'wrong_serial_form', 'root': root, 'leaves': sorted(e1.leaves_of(ast))[:3]},
                            f"{desc}; into_data gave {core.srepr(d, 80)}: {p}", cell, cost)
         return
-    if isinstance(ast, str) and ast in grammar.DC_SPECS:
-        spec = grammar.DC_SPECS[ast]
-        if not output_enabled_on_input(spec):
+    # the statement's precondition holds for every dataclass that occurs in the type, at any depth
+    for leaf in e1.leaves_of(ast):
+        if leaf in grammar.DC_SPECS and not output_enabled_on_input(grammar.DC_SPECS[leaf]):
             res['unspec']['output_form_not_enabled_on_input'] += 1
             return
     try:
@@ -226,6 +226,16 @@ def judge(ctx, ast, sp, T, vi, v):
                            f"{'ConvertError: ' + core.sstr(x2, 80) if not ok else core.srepr(x2, 80)}", cell, cost)
         return
     res['outcomes']['roundtrip_ok'] += 1
+    # "equals x" also in Python's own sense (set / dict-key membership goes through __hash__, which the typed comparison above does not)
+    if e1.leaves_of(ast) & {'dc_hidden'} and not values.nan_in(x):
+        try:
+            same = bool(x2 == x)
+        except Exception:  # noqa
+            same = True
+        if not same:
+            core.add_violation(res, {'kind': 'roundtrip_not_equal_in_python', 'root': root, 'leaves': sorted(e1.leaves_of(ast))[:3]},
+                               f"{desc}; into_data -> {core.srepr(d, 70)}; from_data of that -> {core.srepr(x2, 80)}, which does not compare == to x", cell, cost)
+            return
     try:
         d2 = pane.into_data(x2, T)
     except Exception as e:  # noqa
